@@ -70,6 +70,7 @@ type FuncContract struct {
 	DependsOnly  []DependsClause
 	Opaque       []string // ghost functions kept uninterpreted (not unfolded) while verifying this function
 	OpaqueResult []string
+	OpaqueShallow []string // opaque, and encoded as a function of the content of the argument maps only (see shallow.go)
 	ReplayVia   []string // public entry points through which a counterexample of this (internal) function is searched
 	OwnsLists   bool // assumption: lists found in the maps this function builds are exclusively owned by it
 	Line     int
@@ -255,7 +256,7 @@ func ParseContracts(fset *token.FileSet, files []*ast.File) *Contracts {
 					cur = fc
 				case "inv":
 					cs.InvExprs = append(cs.InvExprs, &Clause{Kind: "inv", Expr: expandSugar(rest), Raw: rest, Line: line, File: fname})
-				case "property", "old", "requires", "ensures", "modifies", "trusted", "pure", "inline", "inline-only", "uf", "escapes-values", "escape-exempt", "map-stores", "invariant", "decreases", "fresh-result", "owns-lists", "replay-via", "depends-only", "opaque-result", "opaque", "havoc":
+				case "property", "old", "requires", "ensures", "modifies", "trusted", "pure", "inline", "inline-only", "uf", "escapes-values", "escape-exempt", "map-stores", "invariant", "decreases", "fresh-result", "owns-lists", "replay-via", "depends-only", "opaque-result", "opaque", "opaque-shallow", "havoc":
 					if cur == nil {
 						errf("clause outside func")
 						continue
@@ -284,6 +285,13 @@ func ParseContracts(fset *token.FileSet, files []*ast.File) *Contracts {
 						for _, f := range strings.Split(rest, ",") {
 							if f = strings.TrimSpace(f); f != "" {
 								cur.Opaque = append(cur.Opaque, f)
+							}
+						}
+					case "opaque-shallow":
+						for _, f := range strings.Split(rest, ",") {
+							if f = strings.TrimSpace(f); f != "" {
+								cur.Opaque = append(cur.Opaque, f)
+								cur.OpaqueShallow = append(cur.OpaqueShallow, f)
 							}
 						}
 					case "opaque-result":
